@@ -344,6 +344,9 @@ fn sweep_authorizer(mut a: Authorizer) -> Value {
     o.insert("snapshot_after".into(), json!(ok(&a.to_raw_snapshot())));
     o.insert("iterations".into(), json!(a.iterations()));
     o.insert("fact_count".into(), json!(a.fact_count()));
+    // answers converted to the Rust types a caller asks for: every date, integer and string a token can carry
+    o.insert("query_as_time".into(), json!(ok(&a.query_all_with_limits::<_, (std::time::SystemTime,), _>("data($t) <- time($t)", limits()))));
+    o.insert("query_as_int".into(), json!(ok(&a.query_all_with_limits::<_, (i64,), _>("data($t) <- num($t)", limits()))));
     // the same calls under the object's own limits (what is left of them after the time already spent)
     o.insert("query_all_own_limits".into(), json!(ok(&a.query_all::<_, Fact, _>("data($x) <- f($x)"))));
     o.insert("query_own_limits".into(), json!(ok(&a.query::<_, Fact, _>("data($x) <- f($x)"))));
@@ -695,6 +698,17 @@ fn gen_cases(opts: &Opts, keys: &Keys) -> Vec<Value> {
     let base = BiscuitBuilder::new().code("right(\"file1\", \"read\"); check if right($f, $r), $r.length() > 0;").unwrap().build_with_rng(&keys.root, Default::default(), &mut mrng).unwrap();
     let base2 = base.append(BlockBuilder::new().code("check if time($t), $t < 2030-01-01T00:00:00Z;").unwrap()).unwrap();
     let tok = base2.to_vec().unwrap();
+    // a validly signed token whose facts hold the ends of the ranges of dates and integers
+    {
+        use biscuit_auth::builder::Term;
+        let mut b = BiscuitBuilder::new();
+        for t in [Term::Date(u64::MAX), Term::Date(0), Term::Date(u64::MAX / 2), Term::Integer(i64::MIN), Term::Integer(i64::MAX)] {
+            let name = if matches!(t, Term::Date(_)) { "time" } else { "num" };
+            b = b.fact(Fact::new(name.to_string(), vec![t])).unwrap();
+        }
+        let t = b.build_with_rng(&keys.root, Default::default(), &mut mrng).unwrap();
+        cases.push(json!({"op": "untrusted", "kind": "token", "hex": hex::encode(t.to_vec().unwrap()), "nblocks": 1, "what": ["facts at the ends of the ranges"]}));
+    }
     let req = base2.third_party_request().unwrap();
     let req_bytes = req.serialize().unwrap();
     let tpb = req.create_block(&keys.ext[0].private(), BlockBuilder::new().code("tp(1);").unwrap()).unwrap().serialize().unwrap();
